@@ -67,6 +67,12 @@ def check(ctx):
                 A = [rng.randrange(256) for _ in range(n)]; B = list(A); B[rng.randrange(n)] ^= 1 << rng.randrange(8)
                 if _: B = [rng.randrange(256) for _ in range(n)]
                 lines.append("CrcReuse %s %s %s %s %d" % (fn, fmt([rng.randrange(256) for _ in range(SEEDW[fn])]), fmt(A), fmt(B), rng.randrange(8)))
+    # a CRC computation interrupted at an instruction boundary by another complete one (cut = 0: the chunked value is the one-shot value)
+    inter = []
+    for fn in FNS:
+        for fn2 in [fn, rng.choice(FNS)]:
+            d1 = [rng.randrange(256) for _ in range(rng.choice([5, 9, 16]))]; d2 = [rng.randrange(256) for _ in range(rng.choice([1, 4, 7]))]
+            inter.append("CrcI %s %s %s %s %s %s %d" % (fn, fmt([rng.randrange(256) for _ in range(SEEDW[fn])]), fmt(d1), fn2, fmt([rng.randrange(256) for _ in range(SEEDW[fn2])]), fmt(d2), 300 if ctx.thorough else 80))
     # CRC-32 over messages beyond 2^16 words (judged by the byte-at-a-time form of the definition, Fast32)
     for n in ([65536, 262143, 262144, 262145, 262151, 300000] if ctx.thorough else [262144, 262149]):
         data = [rng.randrange(256) for _ in range(n)]
@@ -98,7 +104,12 @@ def check(ctx):
     # one process per gigabyte message (tens of seconds of CPU each), next to the ordinary run
     bigscript = [x for ln in biglines for x in ("R", ln)]
     tb = ctx.drive(drv, bigscript, "crc_big", lines_per_proc=2, timeout=1500)
-    bad = ctx.judge("CrcTrace", [t, tb], shards=16)
+    iscript = []
+    for i, ln in enumerate(inter):
+        if i % 2 == 0: iscript.append("R")
+        iscript.append(ln)
+    ti = ctx.drive(drv, iscript, "crc_interrupted", timeout=1500, lines_per_proc=3)
+    bad = ctx.judge("CrcTrace", [t, tb, ti], shards=16)
     for b in bad: b["driver"] = "drv_crc"
     # the second build configuration (size-optimised, plain char unsigned) on part of the executions
     ta = ctx.drive(ctx.cxx("drv_crc_alt", ["drv_crc.cpp", R + "/igris/util/crc.c"], alt=True), core.subset_executions(script, ctx.seed, 1.0 if ctx.thorough else 0.34), "crc_alt")
